@@ -1,7 +1,7 @@
 (* C04 — pinned statements (model: Queue/Model.v; pure WakerTracker: Queue/Waker.v). *)
 From Coq Require Import List NArith Bool Arith.
 From MV Require Import Queue.Model Queue.Spec Queue.Inv Queue.Reports Queue.Flush Queue.FlushLog Queue.Bounded
-                       Queue.Wakeup Queue.Waker Queue.WakerRefine Queue.Shutdown.
+                       Queue.Wakeup Queue.Waker Queue.WakerRefine Queue.Shutdown Queue.BoundedSteps.
 Import ListNotations.
 
 (* THE BARRIER.  For every capacity and every schedule: if request w — sent when n entries had been appended —
@@ -59,6 +59,28 @@ Theorem c04_bounded_passes_cap : forall c ls s s' w,
   In (EWake w) (skipn (length (out (gh s))) (out (gh s'))).
 Proof. exact bounded_passes_cap. Qed.
 Print Assumptions c04_bounded_passes_cap.
+
+(* BOUNDED PROGRESS, counted in writer steps, under explicit hypotheses (live_run): along the run the queue is
+   live (no shutdown request, at least one queue handle) and every flush-interval deadline the writer asks about
+   has passed.  Then, whatever the producers append meanwhile, a pending request is woken after at most
+   phi <= 144*(cap/32+1) + 71 + |pending requests| writer steps plus one per flush request made meanwhile. *)
+Theorem c04_bounded_writer_steps : forall c ls s s' w,
+  0 < cap c -> reachable c s ->
+  In w (fch (sh s) ++ waiting (wr s)) ->
+  run c s ls = Some s' -> live_run c s ls ->
+  ~ In (EWake w) (skipn (length (out (gh s))) (out (gh s'))) ->
+  count_w ls <= phi c s w + count_fr ls.
+Proof. exact bounded_writer_steps. Qed.
+Print Assumptions c04_bounded_writer_steps.
+
+Theorem c04_bounded_writer_steps_cap : forall c ls s s' w,
+  0 < cap c -> reachable c s ->
+  In w (fch (sh s) ++ waiting (wr s)) ->
+  run c s ls = Some s' -> live_run c s ls ->
+  144 * (cap c / 32 + 1) + 71 + length (fch (sh s)) + count_fr ls < count_w ls ->
+  In (EWake w) (skipn (length (out (gh s))) (out (gh s'))).
+Proof. exact bounded_writer_steps_cap. Qed.
+Print Assumptions c04_bounded_writer_steps_cap.
 
 (* a pass that stops at its deadline has consumed at least 32 entries: passes are real progress *)
 Theorem c04_deadline_pass_consumes_32 : forall c s, reachable c s ->
@@ -174,3 +196,18 @@ Example c04_example_never_empty :
           ++ burst 80%nat ++ repeat (LW hit) 65))
   = Some (true, 9%nat, 96%nat, WOuterFlush).
 Proof. vm_compute. reflexivity. Qed.
+
+(* the hypotheses of c04_bounded_writer_steps are satisfiable: a live queue, a pending request, producers that
+   keep appending, a clock past every deadline *)
+Example c04_example_live_run :
+  let hit := {| o_res := ROk; o_rep := None; o_dl := true; o_fl := true |} in
+  let c := {| cap := 2%nat; nosub := true; extra_clone := false |} in
+  match run c init [LPush 1 0; LUnpark 1; LFlushReq 1 5] with
+  | Some s => live_run c s ([LUnpark 1; LW hit; LPush 1 1; LW hit; LW hit; LUnpark 1; LW hit]) /\
+              In 5 (fch (sh s) ++ waiting (wr s))
+  | None => False
+  end.
+Proof.
+  vm_compute. repeat split; intros; try discriminate; auto;
+    match goal with H : LW _ = LW _ |- _ => inversion H; reflexivity end.
+Qed.
